@@ -51,6 +51,11 @@ MODULE = "Marwood.Proofs.C03"
 THEOREMS = ["Marwood.Proofs.C03." + t for t in ['mark_computes_reachable', 'mark_fuel_adequate', 'runGc_fuel_adequate', 'runGc_preserves_reachable', 'runGc_skipped_id', 'runGc_preserves_observation', 'new_wf', 'alloc_preserves_wf', 'put_preserves_wf', 'maybePut_preserves_wf', 'free_preserves_wf', 'grow_preserves_wf', 'mark_preserves_wfcore', 'runGc_preserves_wf', 'witness_ok', 'unfixed_marker_breaks_wf', 'fixed_marker_keeps_wf', 'unfixed_marker_allocates_cell_twice', 'fixed_marker_allocates_each_cell_once', 'runSched_pureN', 'gc_unobservable_partial', 'gc_unobservable_value_partial', 'demo_sim', 'sHalt_safe', 'run_one_preserves_wf', 'run_gc_preserves_good', 'gc_unobservable', 'gc_unobservable_value', 'gc_unobservable_value_eval']] + ["Marwood.Lemmas.Sim." + t for t in ['cgc_sim', 'cput_sim', 'putNew_sim', 'step_sim', 'execSim_all', 'activationLaw', 'builtinLaw_of_ext', 'sim_refl', 'readObs_rel', 'eq_agree']] + ["Marwood.Lemmas.Good." + t for t in ['good_step', 'good_gc', 'safe_of_good', 'goodI_reaches', 'hg_exec', 'roots_of_sim', 'prepare_goodI', 'cput_hg', 'putNew_hg', 'putV_hg', 'maybePutV_hg', 'envPut_hg', 'globPut_hg', 'makeClosure_hg', 'makeActivation_hg', 'newCont_hg', 'hg_mov', 'hg_movImm', 'hg_cons', 'hg_vpush', 'hg_closure', 'hg_varArg', 'hg_call', 'hg_tcall', 'hg_enter', 'hg_ret', 'hg_jmp', 'hg_jnt', 'hg_push', 'hg_pushImm', 'hg_pushAcc', 'hg_halt', 'Demo.sHalt_goodI', 'Demo.sHalt_sizeBounded', 'Demo.sHalt_discAlong']] + ['Marwood.Proofs.C03.gc_unobservable_wf', 'Marwood.Proofs.C03.gc_unobservable_value_wf', 'Marwood.Proofs.C03.run_one_preserves_vmOk', 'Marwood.Lemmas.Good.stackDisc_of_wfs', 'Marwood.Lemmas.Good.step_vops', 'Marwood.Lemmas.Good.vmOk_step', 'Marwood.Lemmas.Good.vmOk_gc', 'Marwood.Lemmas.Good.vmOk_reaches', 'Marwood.Lemmas.Good.wfs_reaches', 'Marwood.Lemmas.Good.stackDiscAlong_of_wfs', 'Marwood.Lemmas.Good.safe_of_vmOk', 'Marwood.Vm.Concrete.concreteLawsV', 'Marwood.Vm.Concrete.cgc_gcLawsV', 'Marwood.Vm.step_preserves', 'Marwood.Vm.step_wr', 'Marwood.Lemmas.Good.Demo.sHalt_vmOk', 'Marwood.Lemmas.Good.Demo.sHalt_calleeOkAlong', 'Marwood.Proofs.C13.failingExt_codeLawsV']
 
 
+# ROUND 6: the callee guard is a theorem (lib/props/procinv_util.py)
+import procinv_util as _pv
+THEOREMS = THEOREMS + [t for t in _pv.COMMON_THEOREMS if t not in THEOREMS] + _pv.FAILING_EXT + ['Marwood.Proofs.C03.gc_unobservable_closed', 'Marwood.Proofs.C03.gc_unobservable_value_closed', 'Marwood.Proofs.C03.run_one_preserves_vmOkP', 'Marwood.Proofs.C03.run_gc_preserves_vmOkP']
+META["note"] = META["note"] + _pv.NOTE + ' C03: gc_unobservable_closed / gc_unobservable_value_closed (T03.5 from VmOk and PInv of the initial state), run_one_preserves_vmOkP / run_gc_preserves_vmOkP (no side condition on the callee).'
+
 def simstep_info(req):
     """`simstep i:<opcode>:<kind>:<core|ext|alias>:<scr|lin>:<inline-rc> …` -> dict"""
     f = req.split(" ", 2)[1].split(":")
